@@ -389,7 +389,7 @@ func (s *GoSpec) describe() string {
 type genOpts struct {
 	depth       int  // container nesting budget
 	unsupported bool // may contain values outside the table
-	noBuiltins  bool // no builtin-function objects (their Copy drops the name; see histories)
+	noBuiltins  bool // no function objects among the tengo objects (not used any more: BuiltinFunction.Copy keeps the name since bd9c161)
 	noNilObjMap bool // never a nil map[string]Object (open finding F-C15-nil-objmap)
 	small       bool // small payloads (histories)
 }
